@@ -41,7 +41,8 @@ RULE = ('Hypothesis draws scenarios = (1-2 units of generated stylesheet + sourc
         'k = 1..N made through the supplied manager is refused once, each in a forked process (exhaustive per scenario). '
         'An evaluation is one (scenario, k) execution (plus one no-fault execution per scenario).  distinct_nontrivial '
         'counts distinct (scenario hash, k) whose refused allocation happened after the transformer constructor '
-        'returned, i.e. inside compile / parse / transform / destroy code.')
+        'returned, i.e. inside compile / parse / transform / destroy code.'
+        ' Scenario steps include runf (the result target is a file name: the library owns the stream) and failing unit stylesheets include xsl:number attribute value templates that fail when evaluated.')
 ASSUMPTIONS = [
     'the k-th allocation of the faulted run is the k-th allocation of the no-fault run (same process image via fork; '
     'every step before the fault is compared with the no-fault run - status, bytes and first allocation index - and a '
